@@ -171,6 +171,7 @@ def run(ctx):
     path_parent_unwraps(ctx, "R16-h")
     parsed_integers_not_unwrapped(ctx, "R16-j")
     token_loops_make_progress(ctx, "R16-k")
+    dependency_preconditions(ctx, "R16-l")
     import c03
     c03.offset_base_agreement(ctx, "R16-i")
 
@@ -645,3 +646,34 @@ def token_loops_make_progress(ctx, rid):
                                 "unchanged, so the loop never ends (rustfmt hangs on a stray `;` inside the macro's braces)"
                                 % [(k[-40:], variant_name(v)) for k, v in path.decisions][-3:], ["%s:%d" % (f.file, f.line)])
     r.floor(rid, n, 4, "loop iterations of the cfg_if / cfg_match parsers")
+
+
+def dependency_preconditions(ctx, rid):
+    """R16-l: dependency functions that panic on a stated precondition are called only where it has been established"""
+    from common import bool_branches, edge_dominates
+    p, r = ctx.p, ctx.r
+    r.rule(rid, "ignore::gitignore::Gitignore::matched_path_or_any_parents (documented: panics when the path is not under the "
+                "matcher's root) is called only where a Path::starts_with test of the queried path has answered true, or where the "
+                "path is not absolute — file names reach it from the command line, the configuration's directory from --config-path")
+    n = 0
+    for f in p.fns.values():
+        if not f.crate or f.crate not in ("rustfmt_nightly", "rustfmt", "cargo_fmt", "rustfmt_format_diff", "git_rustfmt"):
+            continue
+        for c in f.calls():
+            if not c.name.endswith("Gitignore::matched_path_or_any_parents"):
+                continue
+            n += 1
+            guarded = False
+            for g in f.calls():
+                if g.name.endswith("Path::starts_with") and not g.dest[1]:
+                    for (sw, t_true, t_false) in bool_branches(f, g.dest[0]):
+                        if c.bb not in f.reachable(t_false, avoid_blocks=[g.bb]) or edge_dominates(f, (sw, t_true), c.bb):
+                            guarded = True
+            key = "%s: matched_path_or_any_parents" % short(f.id)
+            r.instance(rid, key, "ok" if guarded else "violation", c.loc())
+            if not guarded:
+                r.violation(rid, "%s queries the ignore matcher without the under-the-root test" % short(f.id),
+                            "Gitignore::matched_path_or_any_parents asserts that the path lies under the matcher's root; with "
+                            "`--config-path a/rustfmt.toml b/main.rs` and a non-empty `ignore` list it does not, and rustfmt panics",
+                            [c.loc()])
+    r.floor(rid, n, 1, "calls of matched_path_or_any_parents")
